@@ -3,6 +3,7 @@ C10 — different Desync objects make progress independently.
 -/
 import DesyncModel.Spec
 import DesyncModel.Tables.Pool
+import DesyncModel.Inv.WatchReach
 
 namespace Desync.C10
 open Desync Gen
@@ -22,5 +23,16 @@ theorem pop_takes_or_skips (st : QState) :
   cases st <;> simp [nextToRun]
 
 theorem scan_waits_for_busy_flag : dormantScanBlocks = true := dormant_scan_blocks
+
+/-- **No lost pool wake-up.**  Work for another object that reaches the schedule while pool threads are blocked in jobs is
+never left with nobody to serve it: a busy thread that will look at the schedule again, or a `schedule_thread` call that
+will find an idle thread or spawn one (it gives up only with the vector at the maximum it read: `gives_up_only_at_max`). -/
+theorem no_lost_pool_wakeup {s : State} (hr : ReachableNZ s) (hne : s.schedule ≠ []) : (∃ p, Watching s p) ∨ (∃ a, GoodSt s a) :=
+  (watchInv_reachable hr).sched hne
+
+/-- `schedule_thread` gives up without spawning only when the vector holds at least as many threads as the maximum it read -/
+theorem gives_up_only_at_max (len m : Nat) (h : spawnAllowed len m = false) : m ≤ len := by
+  have h1 : ¬ len < m := fun hlt => by rw [(spawn_only_below_max len m).mpr hlt] at h; cases h
+  omega
 
 end Desync.C10
